@@ -230,6 +230,9 @@ func relationalC04(t *testing.T, r *vkit.Run, sc *Script, res caseResult) (strin
 		if st.Opt != "" || st.TxFrom > 0 {
 			return "", "" // reservation tokens and borrowed transaction ids are shared harness state
 		}
+		if st.Rel == "tie" || st.Stall > 0 {
+			return "", "" // time that passes inside another client's step cannot be kept in the projection
+		}
 	}
 	who := int(vkit.Hash64(sc)>>8) % n
 	proj := &Script{Cfg: sc.Cfg}
